@@ -13,7 +13,9 @@ for d in seeded/*/; do
     out=$(VERIF_NO_EVIDENCE=1 VERIF_REPLAY_DIR=/tmp/_replay ./check $prop 2>&1); rc=$?
     rule=$(echo "$out" | grep -m1 "violated" | sed 's/.*violated \([^ ]*\).*/\1/')
     git -C /repo apply -R $patch
-    echo "$id applies($(basename $patch)) rc=$rc ${rule:-$(echo "$out" | grep -m1 ANALYSIS | cut -c1-80)}"
+    exp=$(python3 -c "import json;print(json.load(open('/verif/$d/meta.json')).get('expect_head_rc',1))" 2>/dev/null || echo 1)
+    [ "$rc" = "$exp" ] && verdict=as-expected || verdict=UNEXPECTED
+    echo "$id applies($(basename $patch)) rc=$rc expected=$exp $verdict ${rule:-$(echo "$out" | grep -m1 ANALYSIS | cut -c1-80)}"
   else
     echo "$id does-not-apply-to-HEAD (made against an earlier /repo commit)"
   fi
